@@ -31,7 +31,7 @@ def gen_basic(tier, rng, prefix, count, stop=True, cancels=True, starts=False):
             for _ in range(rng.choice([1, 2])):
                 tid[0] += 1
                 k = rng.random()
-                ctx = rng.choice([0, 0, 1, 2])
+                ctx = rng.choice([0, 0, 1, 2, 3])
                 if k < 0.5:
                     th += ["D%d,%d" % (tid[0], ctx), "R%d" % tid[0]]
                 elif k < 0.7:
@@ -41,7 +41,7 @@ def gen_basic(tier, rng, prefix, count, stop=True, cancels=True, starts=False):
             ths.append(th)
         extra = []
         if cancels and rng.random() < 0.6:
-            extra.append("C%d" % rng.choice([1, 2, 1, 2, 0]))
+            extra.append("C%d" % rng.choice([1, 2, 3, 1, 2, 0]))
         if starts:
             extra.append("S")
         if stop or autostart == 0:
@@ -53,7 +53,8 @@ def gen_basic(tier, rng, prefix, count, stop=True, cancels=True, starts=False):
             ths.append(extra + ["/"])
         elif extra:
             ths.append(extra)
-        out.append(S("%s%d" % (prefix, i), ths, mode(tier, rng, len(ths)), workers=workers, limit=limit, autostart=autostart))
+        out.append(S("%s%d" % (prefix, i), ths, mode(tier, rng, len(ths)), workers=workers, limit=limit, autostart=autostart,
+                     pooldl=rng.choice([0, 0, 1, 2])))     # pooldl: the pool's parent context ends by deadline (1) / is cancelled with a cause (2)
     return out
 
 def gen_saturated(tier, rng, prefix, count):
@@ -61,7 +62,15 @@ def gen_saturated(tier, rng, prefix, count):
     cancellation / a free worker; every gate is opened by the second thread"""
     out = []
     for i in range(count):
-        v = ["try", "cancel_task", "cancel_pool", "backpressure", "expanded_cancel"][i % 5]
+        v = ["try", "cancel_task", "cancel_pool", "backpressure", "expanded_cancel", "bigpool"][i % 6]
+        if v == "bigpool":
+            # more workers than 2*NumCPU (NumCPU is 2 in these runs): the queue still has ONE slot
+            nw = rng.choice([5, 6])
+            subs = ["D%d,0,1" % (k + 1) for k in range(nw)]
+            ths = [subs + ["W%d" % nw, "D21", "T22", "Y23", "/"] + ["R%d" % (k + 1) for k in range(nw)] + ["R21", "r22", "r23"], ["/", "G1"]]
+            out.append(S("%s%d" % (prefix, i), ths, rnd(tier, rng, 300, 3000), workers=nw, limit=0, autostart=1,
+                         **{"expect_res_0_%d" % (nw + 2): "b0", "expect_res_0_%d" % (nw + 3): "b0"}))
+            continue
         if v == "expanded_cancel":
             # the Do that spawned an expanded worker still waits (the worker expired before taking anything, or took the
             # queued task): cancelling its own context must release it within the phase - the gate opens only afterwards
@@ -73,11 +82,12 @@ def gen_saturated(tier, rng, prefix, count):
             ths = [["D1,0,1", "D2", "T3", "Y4", "/", "R1", "R2", "r3", "r4"], ["/", "G1"]]
             o = dict(expect_res_0_2="b0", expect_res_0_3="b0")
         elif v == "cancel_task":
-            ths = [["D1,0,1", "D2", "D3,2", "R3", "/", "R1", "R2"], [rng.choice(["K3", "K2", "K1"]), "C2", "/", "G1"]]
+            cx = rng.choice([1, 2, 3])       # plain cancel / deadline / cancel with a cause
+            ths = [["D1,0,1", "D2", "D3,%d" % cx, "R3", "/", "R1", "R2"], [rng.choice(["K3", "K2", "K1"]), "C%d" % cx, "/", "G1"]]
             o = dict(expect_res_0_3="ec")
         elif v == "cancel_pool":
             ths = [["D1,0,1", "D2", "D3,1", "R3", "/"], ["K3", "C0", "/", "G1", "X"]]
-            o = dict(expect_res_0_3="ec")
+            o = dict(expect_res_0_3="ec", pooldl=rng.choice([0, 1, 2]))
         else:
             ths = [["D1,0,1", "D2", "D3", "/", "R1", "R2", "R3"], ["T4", "K1", "G1", "/"]]
             o = {}
@@ -184,11 +194,12 @@ def gen_race_stop(tier, rng, prefix, count):
                 tid += 1
                 th.append(rng.choice(["D%d", "D%d,1", "E%d", "T%d", "Y%d"]) % tid)
             ths.append(th + ["/"] + [("r%d" if o[0] in "TY" else "R%d") % int(o[1:].split(",")[0]) for o in th])
-        ctl = ["X"] + (["S"] if autostart == 0 or rng.random() < 0.3 else []) + (["C1"] if rng.random() < 0.3 else [])
+        # the pool's parent context may end first (cancelled, with a cause, or by deadline): refusals carry the pool context's error
+        ctl = ["X"] + (["S"] if autostart == 0 or rng.random() < 0.3 else []) + (["C1"] if rng.random() < 0.3 else []) + (["C0"] if rng.random() < 0.35 else [])
         rng.shuffle(ctl)
         ths.append(ctl + ["/"])
         out.append(S("%s%d" % (prefix, i), ths, dfs(tier, 6000, 80000) if len(ths) <= 2 or rng.random() < 0.5 else rnd(tier, rng, 600, 6000),
-                     workers=workers, limit=limit, autostart=autostart))
+                     workers=workers, limit=limit, autostart=autostart, pooldl=rng.choice([0, 1, 2])))
     return out
 
 def gen_deferred_start(tier, rng, prefix, count):
